@@ -153,7 +153,7 @@ async fn settle() {
 
 async fn run_spec(spec: &Spec) -> Out {
 	let mut out = Out::default();
-	let (client, mut srv) = client(ClientCfg { sub_buffer: spec.buffer, ..Default::default() });
+	let (client, mut srv) = client(ClientCfg { sub_buffer: spec.buffer, build_path: ((spec.seed >> 17) % 4) as u8, ..Default::default() });
 	let mut model: Vec<SlotModel> = vec![SlotModel::default(); SLOTS];
 	let mut handles: Vec<Option<Subscription<Value>>> = (0..SLOTS).map(|_| None).collect();
 	let mut unsub_seen: HashMap<String, usize> = HashMap::new();
@@ -482,6 +482,7 @@ fn witness(spec: &Spec, o: &Out) -> Value {
 
 fn record(spec: &Spec, o: Out, ev: &mut Evidence, violations: &mut Vec<Violation>, class: &str) {
 	ev.eval();
+	ev.count(["histories_client_built_by_core_builder", "histories_client_built_by_core_builder_then_set_rpc_middleware", "histories_client_built_by_ws_builder", "histories_client_built_by_ws_builder_then_set_rpc_middleware"][((spec.seed >> 17) % 4) as usize], 1);
 	ev.count("push_messages", o.pushes as u64);
 	ev.count("items_pushed", o.items_pushed as u64);
 	ev.count("array_messages", o.arrays as u64);
@@ -539,7 +540,7 @@ async fn id_issued_again_case(seed: u64) -> Out {
 	let mut out = Out::default();
 	let mut r = Rng::new(seed);
 	let buffer = 1 + r.usize(3);
-	let (client, mut srv) = client(ClientCfg { sub_buffer: buffer, string_ids: r.bool(), ..Default::default() });
+	let (client, mut srv) = client(ClientCfg { sub_buffer: buffer, string_ids: r.bool(), build_path: r.below(4) as u8, ..Default::default() });
 	let sub_id = if r.bool() { json!(77_000 + r.below(1000)) } else { json!(format!("sid-{}", r.below(1000))) };
 	macro_rules! bad {
 		($sig:expr, $($arg:tt)*) => { out.violations.push(($sig.to_string(), format!($($arg)*))) };
@@ -716,7 +717,7 @@ async fn full_queue_drop_case(seed: u64) -> Out {
 	let mut r = Rng::new(seed);
 	let with_notification = r.chance(3, 4);
 	let extra_callers = r.usize(3);
-	let (client, mut srv) = client(ClientCfg { sub_buffer: 1 + r.usize(3), max_concurrent_requests: 1, string_ids: r.bool(), ..Default::default() });
+	let (client, mut srv) = client(ClientCfg { sub_buffer: 1 + r.usize(3), max_concurrent_requests: 1, string_ids: r.bool(), build_path: r.below(4) as u8, ..Default::default() });
 	let c = client.clone();
 	let t = tokio::spawn(async move { c.subscribe::<Value, _>("sub", rpc_params!["s"], "unsub").await });
 	settle().await;
